@@ -431,21 +431,8 @@ theorem norm_conforms (O : Oracles) : ∀ (f : FieldDecl) (v : PyVal),
   | .anyOf fs, v, hw, h => by
     simp only [admits, norm, conforms, wfDecl] at *
     exact normAny_conforms O fs v hw h
-  | .oneOf fs, v, hw, h => by
-    simp only [admits, norm, conforms, wfDecl] at *
-    have ha : admitsAny O fs v = true := by
-      cases h0 : admitsAny O fs v
-      · rw [countAdmits_zero_of_not_any O fs v h0] at h; cases h
-      · rfl
-    exact normAny_conforms O fs v hw ha
-  | .allOf fs, v, hw, h => by
-    simp only [admits, norm, conforms, wfDecl] at *
-    cases fs with
-    | nil => simp only [normFirst, conformsFirst]
-    | cons f rest =>
-      simp only [wfDecls, admitsAll, and_true_iff] at hw h
-      simp only [normFirst, conformsFirst]
-      exact norm_conforms O f v hw.1 h.1
+  | .oneOf fs, v, _, h => by simp only [admits, norm, conforms] at *; exact h
+  | .allOf fs, v, _, h => by simp only [admits, norm, conforms] at *; exact h
   | .notF fs, v, _, h => by simp only [admits, norm, conforms] at *; exact h
   | .noneF, v, _, h => by simp only [admits, norm, conforms] at *; exact h
   | .anything, v, _, _ => by simp only [conforms]
